@@ -63,17 +63,69 @@ def run(ctx):
             if not good:
                 ctx.add_violation("a failing callback did not stop the parse exactly there / its error was not returned",
                                   {"token_kinds": t, "fail_at": k, "implementation": i, "unfailing_run": " ".join(uevs) + " | " + ures, "model_of_code": m})
-    cov = {"evaluations": len(cases), "distinct_nontrivial": len(distinct),
-           "rule": "seeded random valid specifications (token-kind level) and mutations, each run without failure and with the callback failing at every invocation index k (0..#events+1); non-trivial = distinct accepted sequence",
+    # ---- value passing: ParseAndEvaluate (every choice of the failing invocation of the evaluation function) and ParseAndBuildAST
+    vcases = []
+    for t in base:
+        r = rd.recognise(t)
+        nprod = sum(1 for e in (r[1] if r[0] == "ACCEPT" else r[2]) if e[0] == "P")
+        vcases.append((t, -1))
+        ks = range(0, nprod + 1) if nprod <= 80 else sorted(set(ctx.rng.randrange(nprod + 1) for _ in range(25)))
+        for k in ks:
+            vcases.append((t, k))
+    vlines = [fmt_case(t, k) for t, k in vcases]
+    vimpl = ctx.run_impl("lreval", vlines)
+    vmodel = ctx.run_model("lreval", vlines)
+    alines = [fmt_case(t, -1).split(" ", 1)[1] for t in base]
+    aimpl = ctx.run_impl("lrast", alines)
+    amodel = ctx.run_model("lrast", alines)
+    nv = 0
+    for (t, k), i, m in zip(vcases, vimpl, vmodel):
+        if i != m:
+            ncorr += 1
+            if ncorr <= 3:
+                ctx.add_broken("correspondence: model of ParseAndEvaluate and the implementation disagree on %s, evaluation failing at call %d" % (t, k), "impl=%s\nmodel=%s" % (i, m))
+        r = rd.recognise(t)
+        if r[0] != "ACCEPT":
+            if not i.startswith("ERR "):
+                ctx.add_violation("ParseAndEvaluate of a sequence that is not a specification did not return an error",
+                                  {"token_kinds": t, "fail_at": k, "implementation": i, "model_of_code": m, "cmd": "lreval"})
+            continue
+        (val, pos), tree, calls = fold_events(r[1])
+        nv += 1
+        if k == -1 or k >= len(calls):
+            want = "OK " + hx("%s@%s" % (val, pos))
+        else:
+            want = "ERR " + hx("cb")
+        if i != want:
+            ctx.add_violation("ParseAndEvaluate: the evaluation function did not receive the body values left to right / its result or the first body symbol's position did not become the head's / its error did not abort the parse",
+                              {"token_kinds": t, "fail_at": k, "implementation": decode_hex_fields(i), "expected": decode_hex_fields(want), "model_of_code": decode_hex_fields(m), "cmd": "lreval"})
+    for t, i, m in zip(base, aimpl, amodel):
+        if i != m:
+            ncorr += 1
+            if ncorr <= 3:
+                ctx.add_broken("correspondence: model of ParseAndBuildAST and the implementation disagree on %s" % t, "impl=%s\nmodel=%s" % (i, m))
+        r = rd.recognise(t)
+        if r[0] == "ACCEPT":
+            want = "OK " + hx(fold_events(r[1])[1])
+            if i != want:
+                ctx.add_violation("ParseAndBuildAST: the tree is not the derivation (children in body order, leaves = tokens)",
+                                  {"token_kinds": t, "implementation": decode_hex_fields(i), "expected": decode_hex_fields(want), "cmd": "lrast"})
+        elif not i.startswith("ERR "):
+            ctx.add_violation("ParseAndBuildAST of a sequence that is not a specification did not return an error", {"token_kinds": t, "implementation": i, "cmd": "lrast"})
+    cov = {"evaluations": len(cases) + len(vcases) + len(base), "distinct_nontrivial": len(distinct),
+           "rule": "seeded random valid specifications (token-kind level) and mutations, each run (a) through Parse without failure and with the callback failing at every invocation index k (0..#events+1), (b) through ParseAndEvaluate with an S-expression-building evaluation function, unfailing and failing at every invocation, (c) through ParseAndBuildAST; expected values/trees are folded from the derivation of the independent recogniser; non-trivial = distinct accepted sequence",
            "samples": [fmt_case(*cases[-1]), fmt_case(*cases[len(cases) // 2])],
-           "correspondence_disagreements": ncorr,
-           "trusted_base": TRUSTED_BASE + ["hand-modelled: Parser.Parse loop (Emerge.LR.step/run)", "value passing of ParseAndEvaluate is checked by the C11/C01 correspondence runs, not by these theorems"]}
+           "correspondence_disagreements": ncorr, "evaluate_runs": len(vcases), "accepted_evaluate_runs": nv,
+           "trusted_base": TRUSTED_BASE + ["hand-modelled: Parser.Parse loop (Emerge.LR.step/run), ParseAndEvaluate/ParseAndBuildAST as folds over the callback sequence (Emerge.LREval)"]}
     return ctx.finish(LEVEL, cov, ["stub lexer delivering token kinds; callbacks are recording closures that fail at a chosen invocation"])
 
 
 def replay(ctx, rp):
     ctx.build_go(); ctx.extract(["tables"]); ctx.lake(["model"])
     l = fmt_case(rp["token_kinds"], rp.get("fail_at", -1))
-    print("implementation:", ctx.run_impl("lr", [l])[0])
-    print("model of code :", ctx.run_model("lr", [l])[0])
+    cmd = rp.get("cmd", "lr")
+    if cmd == "lrast":
+        l = l.split(" ", 1)[1]
+    print("implementation:", decode_hex_fields(ctx.run_impl(cmd, [l])[0]))
+    print("model of code :", decode_hex_fields(ctx.run_model(cmd, [l])[0]))
     print("RD oracle     :", rd.recognise(rp["token_kinds"]))
